@@ -9,7 +9,8 @@ CONSTANTS MaxC,       \* length constants 0..MaxC in the one-atom family
 
 RecOps == LenOps \ {"!="}
 NeedsOpt(cls) == \E j \in 1..Len(cls) : \E a \in Range(cls[j]) : a.g \in SameGuards
-Scn(kind, wmt, cls, prim) == [kind |-> kind, opt |-> NeedsOpt(cls), wmt |-> wmt, cls |-> cls, prim |-> prim]
+Scn(kind, wmt, cls, prim) == [kind |-> kind, opt |-> NeedsOpt(cls), wmt |-> wmt, shape |-> "chain", cls |-> cls, prim |-> prim]
+Dia(kind, shape, cls, prim) == [kind |-> kind, opt |-> NeedsOpt(cls), wmt |-> TRUE, shape |-> shape, cls |-> cls, prim |-> prim]
 LenU(ops, cs, sides, gs) == {LenAtom(op, c, sd, g, "const") : op \in ops, c \in cs, sd \in sides, g \in gs}
 Small(cs) == LenU({"<=", ">=", "=="}, cs, {"L"}, {"none"})
 
@@ -40,7 +41,14 @@ D3 == {Scn("str", w, <<<<PatAtom(ids, g)>>>>, <<>>) : ids \in PatIdSeqs, g \in {
 D4 == {Scn(kind, w, cls, IF kind \in {"cprim", "listcprim"} THEN <<<<>>>> ELSE <<>>) :
           kind \in {"str", "bytes", "list", "cprim", "listcprim"}, w \in BOOLEAN, cls \in {<<<<>>>>, <<<<>>, <<>>>>, <<<<>>, <<>>, <<>>>>}}
 
-Families == <<D1, D2, D3, D4>>
+\* D5: diamond C1 <- C2, C1 <- C3, C4(C2, C3) / C4(C3, C2): both parents constrain the inherited property
+D5 == UNION {
+        { Dia("str", sh, <<<<>>, <<a>>, <<b>>, <<>>>>, <<>>) : a \in Small(ChainCs), b \in Small(ChainCs) }
+        \cup { Dia("list", sh, <<<<>>, <<a>>, <<b>>, <<LenAtom("<=", 2, "L", "none", "const")>>>>, <<>>) : a \in Small({1}), b \in Small({3}) }
+        \cup { Dia("str", sh, <<<<>>, <<PatAtom(<<"ab">>, "none")>>, <<PatAtom(<<"bc">>, "none"), LenAtom("<=", 3, "L", "none", "const")>>, <<>>>>, <<>>) }
+        : sh \in {"dia_ab", "dia_ba"} }
+
+Families == <<D1, D2, D3, D4, D5>>
 Scenarios == {S \in UNION {Families[j] : j \in DOMAIN Families} : WellGuarded(S)}
 
 WithCases(S) == LET valid == ValidCases(S)
